@@ -237,8 +237,83 @@ let gen_main n seed0 maxops out =
   close_out oc;
   Hashtbl.iter (fun k v -> Printf.printf "%s=%d " k v) stats; print_newline ()
 
+(* ---------- oracle mode: a trace file (model's or implementation's) + the case file ---------- *)
+let state_of_name = function
+  | "none" -> SNone | "ready" -> SReady | "pending" -> SPending | "running" -> SRunning | "interrupted" -> SInterrupt
+  | "completed" -> SCompleted | "submitted" -> SSubmitted | "backed" -> SBacked | "cancelled" -> SCancelled
+  | "error" -> SError | "aborted" -> SAborted | "skipped" -> SSkipped | "removed" -> SRemoved | s -> failwith ("state " ^ s)
+let mstate_of_name = function
+  | "none" -> MNone | "created" -> MCreated | "completed" -> MCompleted | "submitted" -> MSubmitted | "backed" -> MBacked
+  | "cancelled" -> MCancelled | "aborted" -> MAborted | "skipped" -> MSkipped | "error" -> MError | "removed" -> MRemoved | s -> failwith ("mstate " ^ s)
+let kind_of_name = function "workflow" -> KWorkflow | "branch" -> KBranch | "step" -> KStep | _ -> KAct
+let pack_of_name = function
+  | "-" -> PNone | "acts.core.irq" -> PIrq | "acts.core.msg" -> PMsg | "acts.core.block" -> PBlock | "acts.core.parallel" -> PParallel
+  | "acts.core.sequence" -> PSequence | "acts.transform.set" -> PSet | _ -> POther
+let parse_canon (s : string) : (nat * val0) list =
+  (* {k3:5,data:null} *)
+  let body = String.sub s 1 (String.length s - 2) in
+  if body = "" then [] else
+  List.filter_map (fun kv ->
+    match String.index_opt kv ':' with
+    | None -> None
+    | Some i ->
+      let k = String.sub kv 0 i and v = String.sub kv (i + 1) (String.length kv - i - 1) in
+      (match key_of_name k with
+       | None -> None
+       | Some k -> Some (nat_of_int k, (match v with "null" -> VNull | "true" -> VBool true | "false" -> VBool false
+                                                   | v -> (match int_of_string_opt v with Some z -> VNum (z_of_int z) | None -> VNull))))) (String.split_on_char ',' body)
+let oev_of_line (l : string) : oev option =
+  match String.split_on_char ' ' l with
+  | "N" :: t :: nid :: prev :: k :: lvl :: u :: at :: _ ->
+      Some (ObNew (nat_of_int (int_of_string t), (match nid_of_name nid with Some x when nid <> "dyn" -> Some (nat_of_int x) | _ -> None),
+                  (if prev = "-" then None else Some (nat_of_int (int_of_string prev))), kind_of_name k, nat_of_int (int_of_string lvl), pack_of_name u, z_of_int (int_of_string at)))
+  | "T" :: t :: o :: n :: at :: _ -> Some (ObTrans (nat_of_int (int_of_string t), state_of_name o, state_of_name n, z_of_int (int_of_string at)))
+  | "M" :: t :: ms :: i :: o :: _ -> Some (ObMsg (nat_of_int (int_of_string t), mstate_of_name ms, parse_canon i, parse_canon o))
+  | "P" :: s :: o :: _ -> Some (ObProc (state_of_name s, parse_canon o))
+  | "A" :: r :: _ -> Some (ObAct (r = "ok"))
+  | "X" :: t :: _ -> Some (ObPop (nat_of_int (int_of_string t)))
+  | "Q" :: _ -> Some ObQuiet
+  | _ -> None
+let oracle_main cases_path trace_path =
+  (* traces per case *)
+  let tbl : (string, string list ref) Hashtbl.t = Hashtbl.create 997 in
+  let ic = open_in trace_path in
+  (try while true do
+     let l = input_line ic in
+     if String.length l > 5 && String.sub l 0 5 = "case " then
+       match String.index_opt l ':' with
+       | Some i -> let cid = String.sub l 5 (i - 5) in
+                   let rest = String.sub l (i + 2) (String.length l - i - 2) in
+                   let r = (try Hashtbl.find tbl cid with Not_found -> let r = ref [] in Hashtbl.add tbl cid r; r) in
+                   r := rest :: !r
+       | None -> ()
+   done with End_of_file -> ());
+  close_in ic;
+  let ic = open_in cases_path in
+  (try while true do
+     let l = input_line ic in
+     if String.trim l <> "" then begin
+       let j = Json.parse l in
+       let cid = Json.to_str (Json.get "id" j) in
+       (try
+          let wf = workflow_of (Json.get "wf" j) in
+          let ops = List.map cop_of (Json.to_list (Json.get "ops" j)) in
+          let codes = List.filter_map (function CAct (t, a, _) -> Some (nat_of_int t, action_code a) | CTick _ -> None) ops in
+          let tmo = (match build_tree fuel_tree wf with Some ns -> tmo_nids_of ns | None -> []) in
+          let lines = List.rev (try !(Hashtbl.find tbl cid) with Not_found -> []) in
+          let hooks = List.filter_map (fun l -> match String.split_on_char ' ' l with
+                                                | "D" :: t :: rest when List.mem "hook" rest -> Some (nat_of_int (int_of_string t)) | _ -> None) lines in
+          let evs = List.filter_map (fun l -> try oev_of_line l with _ -> None) lines in
+          let v = check hooks tmo codes evs in
+          List.iter (fun (c, t) -> Printf.printf "case %s: V %d %d\n" cid (int_of_nat c) (int_of_nat t)) v
+        with Case m | Cond m | Json.Error m -> Printf.printf "case %s: CASE-ERROR %s\n" cid m)
+     end
+   done with End_of_file -> ());
+  close_in ic
+
 let () =
   match Array.to_list Sys.argv with
   | _ :: "run" :: path :: _ -> run_main path
+  | _ :: "oracle" :: cases :: trace :: _ -> oracle_main cases trace
   | _ :: "gen" :: n :: s :: m :: out :: _ -> gen_main (int_of_string n) (int_of_string s) (int_of_string m) out
   | _ -> prerr_endline "usage: driver_engine run <cases.jsonl> | gen <n> <seed> <maxops> <out.jsonl>"; exit 2
